@@ -265,6 +265,8 @@ func c06Bases() [][]c06File {
 		{},
 		// names holding characters that mean something to fmt / regexp / shells / paths
 		{{"1_discount_50%_off.sql", "A;\n"}, {"2_%s_%d_%v.sql", "B;\n"}, {"3_a$b^c(d)[e]{f}+g?.sql", "C;\n"}, {"4_tab\there.sql", "D;\n"}},
+		// names that start with a dot (they sort before every version) are migration files like the others
+		{{".0_hidden.sql", "H;\n"}, {"1_a.sql", "A;\n"}, {"._1_a.sql", "M;\n"}},
 	}
 }
 
